@@ -373,7 +373,7 @@ func execC05a(ctx *Ctx, in *Input) *Result {
 
 func init() {
 	Register(&Checker{
-		ID: "C14", Level: "exploration", Engine: "A",
+		ID: "C14", Level: "exploration", Engine: "A", ProcessStateIsEvidence: true,
 		Rule:     "case = (grammar text, 5 output variants, K map-order schedules incl. canonical, reverse, per-site shuffles and rotations); grammars: the repository's examples/*.y, varied textbook grammars, operator tables, token-declaration mixes, random CFGs with precedence. All outputs of one (grammar, variant) must be byte-identical; plus same-process regeneration and N runs of the uninstrumented CLI in separate processes. distinct_nontrivial = distinct grammar texts for which at least one output file was produced and compared.",
 		NumCases: func(ctx *Ctx) int { return fixedCases(ctx, 150, 3000) },
 		Gen:      genC14, Exec: execC14,
